@@ -364,6 +364,20 @@ func cmdConcStress(args []string) {
 			}
 			b, _ := io.ReadAll(r)
 			return string(b)
+		case "decode-new-name":
+			// a vector with a metric name nobody has seen before in this process (anything keyed by names must not be
+			// written while other goroutines decode)
+			j := concJobs[o.a%len(concJobs)]
+			base := "CVSS:3.1/AV:N/AC:L/PR:N/UI:N/S:U/C:H/I:H/A:H"
+			if j.fam == "v2" {
+				base = "AV:N/AC:L/Au:N/C:P/I:P/A:C"
+			}
+			h, err := newHandle(j.fam, j.lvl, true).decode(fmt.Sprintf("%s/Q%dW%d:H", base, o.a, o.b))
+			out := outcome(h, err)
+			if i := strings.Index(out, " text="); i >= 0 {
+				out = out[:i] // the rendering names the unique token
+			}
+			return out
 		case "fresh":
 			// queries on a freshly constructed (invalid) object of every kind: error paths run concurrently too
 			j := concJobs[o.a%len(concJobs)]
@@ -378,7 +392,7 @@ func cmdConcStress(args []string) {
 		}
 		return "?"
 	}
-	kinds := []string{"decode", "query", "query", "view", "report", "report", "names", "fresh"}
+	kinds := []string{"decode", "query", "query", "view", "report", "report", "names", "fresh", "decode-new-name"}
 	progs := make([][]op, *ng)
 	for g := range progs {
 		rng := newRand(7700 + g)
